@@ -150,6 +150,12 @@ def generate(ctx):
     except Exception as e:
         status['bivariate_log_probability_density'] = f'{type(e).__name__}: {e}'
         out += f'(* bivariate_log_probability_density: UNSUPPORTED {e} *)\n'
+    try:
+        out += translate_base_sample(os.path.join(BIV, 'base.py'))
+        status['bivariate_sample'] = None
+    except Exception as e:
+        status['bivariate_sample'] = f'{type(e).__name__}: {e}'
+        out += f'(* bivariate_sample: UNSUPPORTED {e} *)\n'
     orig = P.ExprTr
     P.ExprTr = KTr
     try:
@@ -244,3 +250,44 @@ def translate_frank_compute_theta(path):
     return ('(* least_squares is an oracle: start 1, bounds (ln DBL_MIN, ln DBL_MAX); returns its first coordinate *)\n'
             'Definition frank_compute_theta (least_squares : (R -> R) -> R -> R) (quad : (R -> R) -> R -> R -> R) (tau : R) : theta_result :=\n'
             '  ThetaVal (least_squares (frank__tau_to_theta quad tau) 1).\n')
+
+
+def translate_base_sample(path):
+    """Bivariate.sample: tau guard, two uniform draws (v first, then c), u = percent_point(c, v), column_stack((u, v))."""
+    mod, c, f = P.find_method(path, 'Bivariate', 'sample')
+    decs = [ast.unparse(d) for d in f.decorator_list]
+    if decs != ['random_state']:
+        raise P.Unsupported(f'Bivariate.sample decorators are {decs}, expected [random_state]')
+    if [a.arg for a in f.args.args] != ['self', 'n_samples']:
+        raise P.Unsupported('Bivariate.sample signature')
+    body = [s for s in f.body if not (isinstance(s, ast.Expr) and isinstance(s.value, ast.Constant))]
+    if len(body) != 5 or not isinstance(body[0], ast.If) or body[0].orelse or len(body[0].body) != 1 \
+            or not isinstance(body[0].body[0], ast.Raise) or 'ValueError' not in ast.unparse(body[0].body[0]):
+        raise P.Unsupported('Bivariate.sample: unexpected statement sequence / guard')
+    sc = P.Scope('Bivariate', {}, None, {}, {}, {'tau': 'tau'})
+    guard = P.ExprTr(sc).b(body[0].test)
+    draws = []
+    for st in body[1:3]:
+        if not (isinstance(st, ast.Assign) and isinstance(st.targets[0], ast.Name)
+                and ast.unparse(st.value) == 'np.random.uniform(0, 1, n_samples)'):
+            raise P.Unsupported('Bivariate.sample: draw statement ' + ast.unparse(st))
+        draws.append(st.targets[0].id)
+    st = body[3]
+    if not (isinstance(st, ast.Assign) and isinstance(st.value, ast.Call) and ast.unparse(st.value.func) == 'self.percent_point'
+            and len(st.value.args) == 2 and not st.value.keywords):
+        raise P.Unsupported('Bivariate.sample: percent_point call ' + ast.unparse(st))
+    a1, a2 = (ast.unparse(x) for x in st.value.args)
+    uname = st.targets[0].id
+    if sorted([a1, a2]) != sorted(draws):
+        raise P.Unsupported('Bivariate.sample: percent_point arguments are not the two draws')
+    ret = ast.unparse(body[4])
+    other = [d for d in draws if d != a1]
+    if ret != f'return np.column_stack(({uname}, {a2}))':
+        raise P.Unsupported('Bivariate.sample: return ' + ret)
+    # first draw -> d1, second draw -> d2 ; percent_point(y = a1, V = a2)
+    names = {draws[0]: 'd1', draws[1]: 'd2'}
+    return ('(* Bivariate.sample (decorated with @random_state): guard, first uniform draw d1, second uniform draw d2 *)\n'
+            f'Definition bivariate_sample_guard (tau : R) : bool := {guard}.\n'
+            'Definition bivariate_sample (ppf : R -> R -> R) (tau : R) (d1 d2 : list R) : option (list (R * R)) :=\n'
+            '  if bivariate_sample_guard tau then None\n'
+            f'  else Some (map (fun p => let d1 := fst p in let d2 := snd p in (ppf {names[a1]} {names[a2]}, {names[a2]})) (combine d1 d2)).\n')
